@@ -85,9 +85,16 @@ def big(v):
 def is_pow2_minus1(n): return isinstance(n, int) and n >= 0 and (n & (n + 1)) == 0
 
 
+EXACT_BITS = {'width': None}      # a harness may ask for exact bit-vector semantics of & | ^ on operands in [0, 2^width)
+
+
 def bit_op(op, a, b, known_nonneg=False):
     if isinstance(a, int) and isinstance(b, int):
         return {'and': a & b, 'or': a | b, 'xor': a ^ b}[op]
+    w = EXACT_BITS['width']
+    if w:
+        x, y = z3.Int2BV(zint(a), w), z3.Int2BV(zint(b), w)
+        return z3.BV2Int({'and': x & y, 'or': x | y, 'xor': x ^ y}[op])
     if op == 'and':
         for x, y in ((a, b), (b, a)):
             if isinstance(y, int) and y == 0: return 0
@@ -114,10 +121,23 @@ def bigint_binop(ex, args, m):
         for x, y in ((a, b), (b, a)):
             if is_pow2_minus1(y) and is_sym(x):
                 if ex.decide(zint(x) >= 0): return BigV(simp(zint(x) % (y + 1)))
-        return BigV(bit_op('and', a, b))
-    if op == 'BitOr': return BigV(bit_op('or', a, b))
-    if op == 'BitXor': return BigV(bit_op('xor', a, b))
+        return BigV(_bits_lemmas(ex, 'and', a, b, bit_op('and', a, b)))
+    if op == 'BitOr': return BigV(_bits_lemmas(ex, 'or', a, b, bit_op('or', a, b)))
+    if op == 'BitXor': return BigV(_bits_lemmas(ex, 'xor', a, b, bit_op('xor', a, b)))
     raise Unsupported(op)
+
+
+def _bits_lemmas(ex, op, a, b, r):
+    """facts about an exact bit-vector result that help the arithmetic solver (all of them theorems for a, b in [0, 2^w))"""
+    if is_sym(r) and (is_sym(a) or is_sym(b)):
+        a, b = zint(a), zint(b)
+        if not (ex.decide(a >= 0) and ex.decide(b >= 0)): return r
+        facts = [r >= 0]
+        if op == 'and': facts += [r <= a, r <= b]
+        if op == 'or': facts += [r >= a, r >= b, r <= a + b]
+        if op == 'xor': facts += [r <= a + b]
+        ex.assume(z3.And(*facts))
+    return r
 
 
 @model(r'<&*BigInt as (PartialOrd|PartialEq)(?:<.*>)?>::(\w+)')
@@ -184,6 +204,14 @@ def bigint_modinv(ex, args):
         ex.assume(z3.And(inv > 0, inv < p))
         return some(BigV(inv))
     return none()
+
+
+@model(r'(?:num_bigint::)?BigInt::sign')
+def bigint_sign(ex, args):
+    a = big(args[0])
+    if isinstance(a, int): return Enum('Sign', 'NoSign' if a == 0 else ('Plus' if a > 0 else 'Minus'))
+    if ex.decide(a == 0): return Enum('Sign', 'NoSign')
+    return Enum('Sign', 'Plus' if ex.decide(a > 0) else 'Minus')
 
 
 @model(r'BigInt::to_radix_le')
@@ -458,6 +486,11 @@ def vec_index(ex, args):
         i = ex.concretize(i, 0, n - 1)
     elif not (0 <= i < n): ex.panic('Vec index out of bounds: len %d index %d' % (n, i))
     return Ref(v.items, i)
+
+
+@model(r'<(?:std::vec::)?Vec<.*> as (?:std::ops::)?(?:Index|IndexMut)<(?:std::ops::)?RangeFull>>::(?:index|index_mut)')
+def vec_index_full(ex, args):
+    v = vec_of(args[0]); return SliceV(v, 0, len(v.items))
 
 
 @model(r'<(?:std::vec::)?Vec<.*> as Clone>::clone')
@@ -759,7 +792,7 @@ def as_str(v):
     raise Unsupported('expected str, got ' + type(v).__name__)
 
 
-@model(r'(?:std::string::)?String::new')
+@model(r'(?:std::string::)?String::(?:new|with_capacity)')
 def string_new(ex, args): return StrV([])
 
 
@@ -792,6 +825,21 @@ def chars_adaptor(ex, name, it, rest):
     if name == 'peekable': return it
     items = it.s.chars[it.i:]; it.i = len(it.s.chars)
     return iter_adaptor(ex, name, SeqIter(items), rest, None)
+
+
+@model(r'(?:core::str::|std::str::)?<impl str>::char_indices')
+def str_char_indices(ex, args):
+    """(byte offset, char) pairs; the offsets are sums of the UTF-8 widths of the preceding chars (decided per char)"""
+    cs = as_str(args[0]).chars; out = []; off = 0
+    for c in cs:
+        out.append(Struct('()', [off, c])); off += utf8_width(ex, c)
+    return SeqIter(out)
+
+
+@model(r'(?:std::string::)?String::pop')
+def string_pop(ex, args):
+    cs = as_str(args[0]).chars
+    return some(cs.pop()) if cs else none()
 
 
 @model(r'(?:core::char::methods::|std::char::)?<impl char>::len_utf8')
@@ -1313,6 +1361,32 @@ def box_eq(ex, args, m):
     return r if m.group(1) == 'eq' else simp(b_not(r))
 
 
+def utf8_width(ex, c):
+    if isinstance(c, int): return len(chr(c).encode('utf-8'))
+    if ex.decide(c < 0x80): return 1
+    if ex.decide(c < 0x800): return 2
+    if ex.decide(c < 0x10000): return 3
+    return 4
+
+
+@model(r'<(?:std::string::)?String as (?:std::ops::)?Index<(?:std::ops::)?Range(?:From|To)?<usize>>>::index|<str as (?:std::ops::)?Index<(?:std::ops::)?Range(?:From|To)?<usize>>>::index|(?:core::str::traits::)?<impl (?:std::ops::)?Index<.*Range(?:From|To)?<usize>> for str>::index')
+def str_index_range(ex, args):
+    """&s[a..b] with BYTE offsets over a string of code points: panics unless a <= b <= len and both are char boundaries"""
+    sv = as_str(args[0]); r = deref(args[1]); n = len(sv.chars)
+    ws = [utf8_width(ex, c) for c in sv.chars]
+    bounds = [0]
+    for w in ws: bounds.append(bounds[-1] + w)
+    tyname = simple_name(getattr(r, 'ty', '') or '')
+    lo = r.f[0] if tyname in ('Range', 'RangeFrom') else 0
+    hi = (r.f[1] if tyname == 'Range' else r.f[0]) if tyname in ('Range', 'RangeTo') else bounds[-1]
+    def conc(x):
+        return ex.concretize(x, 0, bounds[-1] + 8) if is_sym(x) else x
+    lo, hi = conc(lo), conc(hi)
+    if lo > hi or hi > bounds[-1]: ex.panic('byte range %d..%d out of range for a string of %d bytes' % (lo, hi, bounds[-1]))
+    if lo not in bounds or hi not in bounds: ex.panic('byte index %d is not a char boundary' % (lo if lo not in bounds else hi))
+    return StrV(sv.chars[bounds.index(lo):bounds.index(hi)])
+
+
 @model(r'<(?:std::string::)?String as (?:std::ops::)?Index<(?:std::ops::)?RangeFull>>::index|<str as (?:std::ops::)?Index<(?:std::ops::)?RangeFull>>::index')
 def string_index_full(ex, args): return as_str(args[0])
 
@@ -1450,6 +1524,16 @@ def opt_ok_or_else(ex, args):
 def array_into_iter(ex, args):
     v = args[0]
     return SeqIter(list(v.items)) if isinstance(v, VecV) else SeqIter(seq_of(ex, v))
+
+
+@model(r'(?:core::str::|std::str::)?<impl str>::(strip_prefix|strip_suffix)::<char>')
+def str_strip_char(ex, args, m):
+    cs = as_str(args[0]).chars; pat = args[1]
+    if not cs: return none()
+    first = m.group(1) == 'strip_prefix'
+    c = simp(eq(cs[0] if first else cs[-1], pat))
+    if ex.decide(c) if is_sym(c) else c: return some(StrV(cs[1:] if first else cs[:-1]))
+    return none()
 
 
 @model(r'(?:core::str::|std::str::|alloc::str::)?<impl str>::replace::<char>')
